@@ -64,7 +64,7 @@ def enabled(events, maxnest):
 
 def configs(all_of_them, some=False):
     if some:    # the configurations whose patterns differ per kind, plus one non-default trigger
-        return [{}, {"function_parameter_name_strip_regex": "^_[a-zA-Z]*_", "macro_parameter_name_strip_regex": "x"},
+        return [{}, {"function_parameter_name_strip_regex": "^_"}, {"function_parameter_name_strip_regex": "^_[a-zA-Z]*_", "macro_parameter_name_strip_regex": "x"},
                 {"macro_parameter_name_strip_regex": "^_", "member_parameter_name_strip_regex": "^_m_"},
                 {"kwargs_doc_trigger_string": "KW!", "function_parameter_name_strip_regex": r"\W+",
                  "macro_parameter_name_strip_regex": r"\W+", "member_parameter_name_strip_regex": r"\W+"}]
@@ -76,7 +76,10 @@ def configs(all_of_them, some=False):
     for t, s in [(TRIGGERS[0], s) for s in STRIPS] + [(t, s) for t in TRIGGERS[1:] for s in STRIPS[:2]]:
         out.append({"kwargs_doc_trigger_string": t, "function_parameter_name_strip_regex": s,
                     "macro_parameter_name_strip_regex": s, "member_parameter_name_strip_regex": s})
-    # patterns differing per kind (a value must only act on its own kind)
+    # patterns differing per kind (a value must only act on its own kind); one kind's pattern set, the others left empty
+    out.append({"function_parameter_name_strip_regex": "^_"})
+    out.append({"macro_parameter_name_strip_regex": "_$", "function_parameter_name_strip_regex": ""})
+    out.append({"member_parameter_name_strip_regex": "^_"})
     out.append({"function_parameter_name_strip_regex": "^_[a-zA-Z]*_", "macro_parameter_name_strip_regex": "x"})
     out.append({"macro_parameter_name_strip_regex": "^_", "member_parameter_name_strip_regex": "^_m_"})
     return out
@@ -157,6 +160,39 @@ def check_cli(job):
             "cls": "signature cli" if msgs else None, "case": {"cli_trigger": trigger}}
 
 
+CLI_STRIPS = ["in v", '^"in ', "a b c", " "]
+
+
+def check_cli_strip(job):
+    """a strip pattern that contains blanks, given in a settings file: the pattern applied is the pattern configured"""
+    from .. import fsbox, rstobs
+    import re as _re
+    import yaml
+    pat = job
+    box = fsbox.Box("c03s")
+    msgs = []
+    params = ['"in value"', '"in variable"', "out_name", '"a b c d"', "[[in v]]"]
+    try:
+        box.build({"in/m.cmake": "#[[[\n# Doc.\n#]]\nfunction(copy_value " + " ".join(params) + ")\nendfunction()\n"
+                                 "macro(copy_mac " + " ".join(params) + ")\nendmacro()\n"})
+        with open(box.path("work", "s.yaml"), "w") as f:
+            yaml.safe_dump({"input": {"function_parameter_name_strip_regex": pat, "macro_parameter_name_strip_regex": pat}}, f)
+        r = box.run(["-s", "s.yaml", "-o", "out", "in"])
+        if r["status"] != 0:
+            msgs.append(f"error: run failed: {r['exc'] or r['stdout'][-200:]}")
+        else:
+            page = box.files("work/out")["m.rst"]
+            want = " ".join(_re.sub(pat, "", p) for p in params)
+            for nm in ("copy_value", "copy_mac"):
+                sig = [b.arg for b in rstobs.Page(page).entries() if b.arg.startswith(nm + "(")]
+                if sig != [f"{nm}({want})"]:
+                    msgs.append(f"signature: strip pattern {pat!r} (settings file): {nm} is shown as {sig}, expected {nm}({want})")
+    finally:
+        box.cleanup()
+    return {"viol": msgs[:3], "obs": common.digest([pat, msgs]), "nt": common.digest(pat), "n": 1, "cls": "signature cli-strip" if msgs else None,
+            "case": {"cli_strip": pat}}
+
+
 def run(ctx):
     quick = ctx.tier == "quick"
     maxnest, depth, cfgdepth = (3, 5, 3) if quick else (4, 8, 3)
@@ -171,11 +207,14 @@ def run(ctx):
     for oc in others:
         ctx.sweep(functools.partial(sweep_case, case=oc), hs, space=f"histories <=2 in {oc} case, four configurations")
     ctx.sweep(check_cli, CLI_TRIGGERS, space="trigger strings with blanks through the settings file and the command line", selftest=1)
+    ctx.sweep(check_cli_strip, CLI_STRIPS, space="strip patterns with blanks through the settings file", selftest=1)
     ctx.assumptions += ["only signature/arity/kind messages are judged here (doc text is C01's, classes C09's)"]
     return RULE
 
 
 def replay(case):
+    if isinstance(case, dict) and "cli_strip" in case:
+        return check_cli_strip(case["cli_strip"])["viol"]
     if isinstance(case, dict) and "cli_trigger" in case:
         return check_cli(case["cli_trigger"])["viol"]
     events = case if isinstance(case, list) else case["events"]
